@@ -35,11 +35,10 @@ def check(report: Report, repo: Repo) -> None:
         " are unchanged afterwards and no in-place operation touches a value that may alias the caller's lr tensor"
         " (tensor lr is cloned per parameter); R4 with independent decay stored_wd == group_wd / float(stored lr) (the"
         " *scaled* lr, same value object), so lr x wd == requested decay; otherwise wd passes through."
-        " R1s (unbounded, syntactic): the loops range over `params` and group['params'], contain no break/continue/return,"
-        " and the single result.append sits unconditionally in the inner loop body; result starts empty and is returned."
+        ""
     )
-    report.explanation = "abstract execution over symbolic groups (bounded list lengths, symbolic contents) plus a syntactic loop-discipline rule for unbounded inputs"
-    report.assumptions += ["one SGD/AdamW step with zero gradient multiplies a parameter by (1 - lr*wd) (PyTorch optimizer semantics)", "list lengths in the schemas are 1-3; the loop body is uniform (R1s)"]
+    report.explanation = "abstract execution over symbolic groups (list lengths 1-3 incl. tuples/one-shot iterables, symbolic contents)"
+    report.assumptions += ["one SGD/AdamW step with zero gradient multiplies a parameter by (1 - lr*wd) (PyTorch optimizer semantics)", "list lengths in the schemas are 1-3 (a purely syntactic loop-shape rule was tried and removed: it fired on behaviour-preserving restructurings)"]
     it = Interp(repo)
     f = it.get_global(OP, "scaled_parameters")
     if not isinstance(f, FuncV):
@@ -156,16 +155,3 @@ def check(report: Report, repo: Repo) -> None:
     except Unsupported as ex:
         report.add("R3-no-mutation", f"{cons}::tensor-lr", None, f"outside fragment: {ex}")
 
-    # ---- R1s syntactic loop discipline
-    node = f.node
-    loops = [n for n in ast.walk(node) if isinstance(n, ast.For)]
-    iters = [ast.unparse(l.iter) for l in loops]
-    ok_iters = len(loops) == 2 and iters[0] == "params" and "params" in iters[1] and isinstance(loops[1].iter, ast.Subscript)
-    report.add("R1s-loop-discipline", f"{cons}::loops", ok_iters, "two nested loops: over `params` and over the group's 'params' list", iters, ["params", "group['params']"])
-    jumps = [type(n).__name__ for l in loops for n in ast.walk(l) if isinstance(n, (ast.Break, ast.Continue, ast.Return))]
-    report.add("R1s-loop-discipline", f"{cons}::jumps", not jumps, "no break/continue/return inside the loops (a skipped parameter would lose its group)", jumps, [])
-    appends = [n for n in ast.walk(node) if isinstance(n, ast.Call) and isinstance(n.func, ast.Attribute) and n.func.attr in ("append", "extend", "insert")]
-    ok_app = len(appends) == 1 and len(loops) == 2 and any(isinstance(s, ast.Expr) and s.value is appends[0] for s in loops[1].body)
-    report.add("R1s-loop-discipline", f"{cons}::append", ok_app, "exactly one result.append, unconditionally in the per-parameter loop body", len(appends), 1)
-    inner_once = len(loops) == 2 and any(s is loops[1] for s in loops[0].body)
-    report.add("R1s-loop-discipline", f"{cons}::nesting", inner_once, "the per-parameter loop sits unconditionally in the per-group loop", inner_once, True, nontrivial=False)
